@@ -3,6 +3,6 @@ From Common Require Import Bytes Drv Outcome.
 From BlockTree Require Import Model Spec.
 From C17 Require Import Model Spec.
 Extraction "model.ml" drv_b2n drv_n2b drv_z_of_n drv_n_of_z drv_nat_of_n drv_n_of_nat
-  genesis_state bs_add set_finalised set_finalised_prefix observe best_block_hash
-  f_genesis f_add f_fin f_admissible check_finalisation check_request check_by_number
+  genesis_state bs_add set_finalised set_finalised_prefix set_finalised_late observe best_block_hash
+  f_genesis f_add f_fin f_admissible f_accepts f_request check_finalisation check_request check_by_number
   check_no_leftovers obs_eqb f_abandoned s_best_hash.
